@@ -432,21 +432,23 @@ def ops_bound(g: L.Grammar, start: str, n: int) -> int | None:
         return None
 
 
-_COUNTING = None
+_COUNTING: dict = {}
 
 
-def counting_text_class():
-    """a real TextLines whose real cursor counts the calls made through the public Cursor protocol"""
-    global _COUNTING
-    if _COUNTING is not None:
-        return _COUNTING
-    from tatsu.input.textlines import TextLines, TextLinesCursor
+def counting_text_class(kind='TextLines'):
+    """a real TextLines (or legacy Buffer) whose real cursor counts the calls made through the public Cursor protocol"""
+    if kind in _COUNTING:
+        return _COUNTING[kind]
+    if kind == 'Buffer':
+        from tatsu.input.buffer import Buffer as Base, BufferCursor as BaseCursor
+    else:
+        from tatsu.input.textlines import TextLines as Base, TextLinesCursor as BaseCursor
 
     def ticking(name):
-        base = getattr(TextLinesCursor, name)
+        base = getattr(BaseCursor, name)
 
         def method(self, *a, **kw):
-            box = self._input.vt_clock
+            box = self.input.vt_clock
             box[0] += 1
             if box[0] > box[1]:
                 raise StepsExceeded(box[1])
@@ -455,19 +457,21 @@ def counting_text_class():
         return method
 
     names = [n for n in ('goto', 'move', 'next', 'next_token', 'match', 'matchre', 'matcheol', 'matchname', 'matchint',
-                         'matchuint', 'matchfloat', 'matchbool', 'atend') if hasattr(TextLinesCursor, n)]
-    CountingCursor = type('CountingCursor', (TextLinesCursor,), {n: ticking(n) for n in names})
+                         'matchuint', 'matchfloat', 'matchbool', 'atend') if callable(getattr(BaseCursor, n, None))]
+    CountingCursor = type('CountingCursor', (BaseCursor,), {n: ticking(n) for n in names})
 
-    class CountingText(TextLines):
+    class CountingText(Base):
         def __init__(self, text, budget, **settings):
             self.vt_clock = [0, budget]
             super().__init__(text, **settings)
 
         def newcursor(self):
+            if kind == 'Buffer':
+                return CountingCursor(self, pos=self.pos)
             return CountingCursor(self)
 
-    _COUNTING = CountingText
-    return _COUNTING
+    _COUNTING[kind] = CountingText
+    return CountingText
 
 
 class watchdog:
@@ -492,6 +496,68 @@ class watchdog:
         import signal
         signal.setitimer(signal.ITIMER_PROF, 0)
         signal.signal(signal.SIGPROF, self._old)
+        return False
+
+
+class Stalled(StepsExceeded):
+    """the call clock saw too many Python function calls without either logical clock advancing"""
+
+
+class stall_clock:
+    """with stall_clock(progress, limit): ...   a third logical clock for loops that make neither rule invocations nor
+    cursor operations (e.g. a constant re-evaluated forever): sys.monitoring counts Python function entries; when more
+    than `limit` of them happen while progress() (rule invocations + cursor operations) stays the same, Stalled is
+    raised inside the monitored code.  Stalled is a BaseException, so `except Exception` in the code under test cannot
+    swallow it.  Nothing in the repository is named: any pure-Python loop that calls functions is seen."""
+    TOOL = 4
+    CHECK_EVERY = 2048
+
+    def __init__(self, progress, limit):
+        self.progress = progress
+        self.limit = limit
+        self.n = 0
+        self.mark = 0
+        self.last = None
+        self.peak_gap = 0
+        self.armed = False
+
+    def _cb(self, _code, _offset):
+        self.n += 1
+        if self.n % self.CHECK_EVERY:
+            return
+        p = self.progress()
+        if p != self.last:
+            self.last = p
+            self.mark = self.n
+            return
+        gap = self.n - self.mark
+        if gap > self.peak_gap:
+            self.peak_gap = gap
+        if gap > self.limit:
+            self.mark = self.n
+            raise Stalled(self.limit)
+
+    def __enter__(self):
+        import sys
+        mon = getattr(sys, 'monitoring', None)
+        if mon is None:
+            return self
+        try:
+            mon.use_tool_id(self.TOOL, 'vt-stall-clock')
+        except ValueError:
+            return self
+        mon.register_callback(self.TOOL, mon.events.PY_START, self._cb)
+        mon.set_events(self.TOOL, mon.events.PY_START)
+        self.armed = True
+        return self
+
+    def __exit__(self, *exc):
+        import sys
+        if self.armed:
+            mon = sys.monitoring
+            mon.set_events(self.TOOL, 0)
+            mon.register_callback(self.TOOL, mon.events.PY_START, None)
+            mon.free_tool_id(self.TOOL)
         return False
 
 
